@@ -185,6 +185,12 @@ func judge(c FaultCase) (verdict, []byte, []byte) {
 		}
 		for _, m := range memberStart {
 			if (c.FlipByte >= 0 && (c.FlipByte == m || c.FlipByte == m+1)) || (c.FlipByte < 0 && m > 0 && c.Cut == m+1) {
+				if m == 0 && !bytes.ContainsAny(bad, ">@") {
+					// the compressed bytes are read as plain text without any record
+					// header: since the fix "data without any record" this is refused
+					evid.Class("stdin_first_magic_destroyed_no_header_byte", 1)
+					continue
+				}
 				evid.Excluded("stdin_gzip_member_magic", 1)
 				return verdict{}, orig, bad
 			}
